@@ -209,14 +209,139 @@ pub fn eval(c: &Case) -> (Vec<Finding>, String) {
     (fs, format!("{}:{}", c.api, if class.len() > 12 { &class[..12] } else { &class }))
 }
 
+// ------------------------------------------------------------------------------------------
+// sequences on one authenticator with a capability change in between: the trait must track the
+// direct methods through state changes too (differential, no hand-written expectation)
+
+#[derive(Clone, Debug, Serialize, Deserialize, PartialEq, Eq, Hash)]
+pub struct SeqCase {
+    /// operations: 0 get_info, 1 make_credential, 2 get_assertion
+    pub ops: Vec<u8>,
+    /// what changes between consecutive operations: 0 nothing, 1 verification capability
+    /// Some(true) -> None, 2 presence capability true -> false, 3 store capability Full -> OnlyNonDiscoverable
+    pub flip: u8,
+}
+
+#[derive(Clone)]
+struct DynUv {
+    cap: Arc<std::sync::Mutex<Option<bool>>>,
+    presence: Arc<std::sync::atomic::AtomicBool>,
+}
+#[async_trait::async_trait]
+impl passkey_authenticator::UserValidationMethod for DynUv {
+    type PasskeyItem = Passkey;
+    async fn check_user<'a>(&self, _c: Option<&'a Passkey>, _p: bool, _v: bool) -> Result<passkey_authenticator::UserCheck, passkey_types::ctap2::Ctap2Error> {
+        Ok(passkey_authenticator::UserCheck { presence: true, verification: true })
+    }
+    fn is_presence_enabled(&self) -> bool {
+        self.presence.load(std::sync::atomic::Ordering::SeqCst)
+    }
+    fn is_verification_enabled(&self) -> Option<bool> {
+        *self.cap.lock().unwrap()
+    }
+}
+
+fn run_seq(c: &SeqCase, via_trait: bool) -> (Vec<String>, Vec<(String, Option<Vec<u8>>, Option<u32>, bool)>) {
+    let uv = DynUv { cap: Arc::new(std::sync::Mutex::new(Some(true))), presence: Arc::new(std::sync::atomic::AtomicBool::new(true)) };
+    let mut rs = RefStore::with(vec![seeded(&Seed { n: 1, rp: RP.into(), handle: Some(vec![1]), counter: Some(5), hmac: None })]);
+    rs.cap = Cap::Full;
+    let store = Shared::new(rs);
+    let mut auth = Authenticator::new(Aaguid::from(*b"harness-aaguid-0"), store.clone(), uv.clone());
+    auth.set_make_credentials_with_signature_counter(true);
+    let mut out = vec![];
+    for (k, op) in c.ops.iter().enumerate() {
+        if k > 0 {
+            match c.flip {
+                1 => *uv.cap.lock().unwrap() = None,
+                2 => uv.presence.store(false, std::sync::atomic::Ordering::SeqCst),
+                3 => store.0.lock().unwrap().cap = Cap::OnlyNonDiscoverable,
+                _ => {}
+            }
+        }
+        let r = match op {
+            0 => {
+                let r = if via_trait { block_on(Ctap2Api::get_info(&auth)) } else { block_on(auth.get_info()) };
+                format!("{r:?}")
+            }
+            1 => {
+                let req = mc_request(RP, &[9, k as u8], None, true, true, true, false, None);
+                let r = if via_trait { block_on(Ctap2Api::make_credential(&mut auth, req)) } else { block_on(auth.make_credential(req)) };
+                match r {
+                    Ok(r) => format!("ok flags={:?} counter={:?}", r.auth_data.flags, r.auth_data.counter),
+                    Err(e) => format!("err:{:02x}", sc_byte(e)),
+                }
+            }
+            _ => {
+                let req = ga_request(RP, Some(vec![cred_id(1)]), false, true, true, false, None);
+                let r = if via_trait { block_on(Ctap2Api::get_assertion(&mut auth, req)) } else { block_on(auth.get_assertion(req)) };
+                match r {
+                    Ok(r) => format!("ok:{r:?}"),
+                    Err(e) => format!("err:{:02x}", sc_byte(e)),
+                }
+            }
+        };
+        out.push(r);
+    }
+    (out, norm_store(store.recs()))
+}
+
+pub fn eval_seq(c: &SeqCase) -> (Vec<Finding>, String) {
+    let case = json!({"sequence": c});
+    let mut fs = vec![];
+    let d = match par::catch(|| run_seq(c, false)) {
+        Ok(d) => d,
+        Err(_) => return (fs, "direct-panics".into()),
+    };
+    match par::catch(|| run_seq(c, true)) {
+        Err(p) => fs.push(Finding::new("sequence/kind=trait-call-panics", p, case)),
+        Ok(t) => {
+            for (k, (a, b)) in d.0.iter().zip(t.0.iter()).enumerate() {
+                if a != b {
+                    let api = ["get_info", "make_credential", "get_assertion"][c.ops[k] as usize % 3];
+                    fs.push(Finding::new(format!("sequence/api={api}/kind=result-differs"), format!("operation #{k} of {:?} (change between operations: {}): direct {} / trait {}", c.ops, c.flip, &a[..a.len().min(160)], &b[..b.len().min(160)]), case.clone()));
+                }
+            }
+            if d.1 != t.1 {
+                fs.push(Finding::new("sequence/kind=store-effect-differs", format!("direct {:?} / trait {:?}", d.1, t.1), case));
+            }
+        }
+    }
+    (fs, "sequence".into())
+}
+
+pub fn seq_cases(tier: Tier) -> Vec<SeqCase> {
+    let mut v = vec![];
+    for flip in 0..4u8 {
+        for a in 0..3u8 {
+            for b in 0..3u8 {
+                v.push(SeqCase { ops: vec![a, b], flip });
+                if tier == Tier::Thorough {
+                    for c in 0..3u8 {
+                        v.push(SeqCase { ops: vec![a, b, c], flip });
+                    }
+                }
+            }
+        }
+    }
+    v
+}
+
 pub struct Space {
     pub cases: Vec<Case>,
+    pub seqs: Vec<SeqCase>,
 }
 impl IsoSpace for Space {
     fn len(&self) -> usize {
-        self.cases.len()
+        self.cases.len() + self.seqs.len()
     }
     fn eval(&self, idx: usize, st: &mut Stats) {
+        if idx >= self.cases.len() {
+            let c = &self.seqs[idx - self.cases.len()];
+            let (fs, o) = eval_seq(c);
+            st.case(c, true, &o);
+            st.findings_from(fs);
+            return;
+        }
         let (fs, o) = eval(&self.cases[idx]);
         st.case(&self.cases[idx], o.contains(":ok") || o.contains("err"), &o);
         if idx % 997 == 0 {
@@ -225,9 +350,15 @@ impl IsoSpace for Space {
         st.findings_from(fs);
     }
     fn describe(&self, idx: usize) -> Value {
+        if idx >= self.cases.len() {
+            return json!({"sequence": self.seqs[idx - self.cases.len()]});
+        }
         serde_json::to_value(&self.cases[idx]).unwrap()
     }
     fn death_key(&self, idx: usize) -> String {
+        if idx >= self.cases.len() {
+            return "sequence".into();
+        }
         format!("api={}", self.cases[idx].api)
     }
     fn limit_ms(&self) -> u64 {
@@ -236,7 +367,7 @@ impl IsoSpace for Space {
 }
 
 pub fn space(tier: Tier) -> Space {
-    Space { cases: cases(tier) }
+    Space { cases: cases(tier), seqs: seq_cases(tier) }
 }
 
 pub fn run(ctx: &Ctx) -> Result<Run, String> {
@@ -246,7 +377,7 @@ pub fn run(ctx: &Ctx) -> Result<Run, String> {
     let stats = iso::run(&sp, &cfg)?;
     let mut run = Run::from_stats(
         "model_checking",
-        "differential enumeration: every configuration of the C04 product at CTAP2 level (operation, rk/up/uv, verification capability, validation outcome, pin-auth) x 4 store contents x {contract store, Arc<Mutex<MemoryStore>>} x PRF extension on/off, and getInfo for every capability combination, each run once through the inherent method and once through <Authenticator as Ctap2Api> on identically seeded authenticators inside isolated worker processes (8 MiB stack, 10 s watchdog); compared: result (status byte or full response incl. RFC 6979 signature bytes; fresh ids/keys normalised), store snapshot, store/user-validation call log. Non-trivial = distinct case whose direct call reached a verdict",
+        "differential enumeration: every configuration of the C04 product at CTAP2 level (operation, rk/up/uv, verification capability, validation outcome, pin-auth) x 4 store contents x {contract store, Arc<Mutex<MemoryStore>>} x PRF extension on/off, and getInfo for every capability combination, plus all pairs (thorough: triples) of operations on ONE authenticator with a capability change in between (verification / presence / store capability), each run once through the inherent method and once through <Authenticator as Ctap2Api> on identically seeded authenticators inside isolated worker processes (8 MiB stack, 10 s watchdog); compared: result (status byte or full response incl. RFC 6979 signature bytes; fresh ids/keys normalised), store snapshot, store/user-validation call log. Non-trivial = distinct case whose direct call reached a verdict",
         true,
         stats,
     );
@@ -258,9 +389,14 @@ pub fn run(ctx: &Ctx) -> Result<Run, String> {
 pub fn replay(_ctx: &Ctx, case: &Value) -> Result<Vec<Finding>, String> {
     // replay in an isolated worker too: the single-case sub-space of the thorough enumeration
     // (a superset of the quick one)
-    let c: Case = serde_json::from_value(case.clone()).map_err(|e| format!("bad C18 case: {e}"))?;
     let all = space(Tier::Thorough);
-    let idx = all.cases.iter().position(|x| *x == c).ok_or("case not in the enumeration")?;
+    let idx = if let Some(sq) = case.get("sequence") {
+        let c: SeqCase = serde_json::from_value(sq.clone()).map_err(|e| format!("bad C18 sequence: {e}"))?;
+        all.cases.len() + all.seqs.iter().position(|x| *x == c).ok_or("sequence not in the enumeration")?
+    } else {
+        let c: Case = serde_json::from_value(case.clone()).map_err(|e| format!("bad C18 case: {e}"))?;
+        all.cases.iter().position(|x| *x == c).ok_or("case not in the enumeration")?
+    };
     let one = OneOf { inner: all, idx };
     let cfg = IsoConfig { prop: "C18".into(), mode: format!("one:{idx}"), tier: Tier::Thorough.name(), workers: 1, segment: 1, every: 1, stack_mb: 8 };
     let st = iso::run(&one, &cfg)?;
